@@ -42,14 +42,17 @@ N_DocSummary == <<5, 68, 111, 99, 117, 109, 101, 110, 116, 83, 117, 109, 109, 97
 N_Signature == <<5, 68, 105, 103, 105, 116, 97, 108, 83, 105, 103, 110, 97, 116, 117, 114, 101>>
 N_SigEx == <<5, 77, 115, 105, 68, 105, 103, 105, 116, 97, 108, 83, 105, 103, 110, 97, 116, 117, 114, 101, 69, 120>>
 N_StringPool == <<95, 83, 116, 114, 105, 110, 103, 80, 111, 111, 108>>
+LongOdd == <<97>> \o [k \in 1..40 |-> 233]      \* "a" + 40 x "é": 81 bytes, 41 UTF-16 units
 StreamNames ==
   { <<97>>, <<48, 48>>, <<14336>>, Packable(3), Packable(62), Packable(63), <<97, 32, 98>>, <<233>>, <<18431>>, <<18432>>, <<18495>>,
     <<18496, 97>>, <<97, 18496>>, <<47, 233>>, <<97, 47, 98>>, <<92>>, <<58>>, <<33>>, <<>>, <<201, 97>>, <<67, 97, 102, 201>>, <<931>>,
     N_Summary, N_DocSummary, N_Signature, N_SigEx, N_StringPool, T, <<128512>>,
     \* the ends of the packing alphabet ('0' = 0, '_' = 63) as the odd character of a run and as a pair
-    <<48>>, <<95>>, <<97, 98, 48>>, <<97, 98, 95>>, <<95, 95>> }
+    <<48>>, <<95>>, <<97, 98, 48>>, <<97, 98, 95>>, <<95, 95>>,
+    \* refused names that are long in BYTES, with multi-byte characters at every alignment (error paths quote the name)
+    LongOdd, [k \in 1..32 |-> 8364], <<97, 47>> \o [k \in 1..24 |-> IF k % 2 = 1 THEN 20013 ELSE 25991], <<97, 98>> \o [k \in 1..20 |-> 128512] }
 StreamNamesQ == { <<97>>, <<48, 48>>, <<14336>>, Packable(62), Packable(63), <<233>>, <<201, 97>>, <<47, 233>>, <<18496, 97>>, <<>>,
-                  N_Summary, N_Signature, T, <<48>>, <<97, 98, 95>> }
+                  N_Summary, N_Signature, T, <<48>>, <<97, 98, 95>>, LongOdd }
 Eq(c, v) == Bin("eq", Col(c), Lit(v))
 
 E(op, args) == [op |-> op, args |-> args]
@@ -100,6 +103,8 @@ Alphabet ==
          \cup {Upd(T, <<<<K, IntV(2)>>>>, True), Upd(T, <<<<K, IntV(3)>>>>, Eq(K, IntV(1))),
                Upd(T, <<<<V, sb>>, <<K, IntV(2)>>>>, True)}
          \cup {Del(T, Eq(K, IntV(1))), Del(T, True)}
+         \* a logical operator INSIDE a comparison: (K OR K) is 1 for K = 2, so the row with key 2 goes
+         \cup {Del(T, Bin("eq", Bin("or", Col(K), Col(K)), Lit(IntV(1)))), Upd(T, <<<<V, sb>>>>, Bin("eq", Bin("and", Col(K), Col(K)), Lit(IntV(1))))}
     [] Cfg = "persist" ->       \* what the finisher saves of tables and pool; all three closes, reopen, crash point
          {Cre(T, TabT), Drp(T), Ins(T, <<<<IntV(1), sa>>>>), Ins(T, <<<<IntV(2), sa>>>>),
           Upd(T, <<<<V, sT>>>>, Eq(K, IntV(1))), Upd(T, <<<<V, se>>>>, Eq(K, IntV(2))), Del(T, Eq(K, IntV(1)))}
@@ -154,6 +159,8 @@ Alphabet ==
          \cup {Upd(U, <<<<K, IntV(1)>>>>, True), Upd(U, <<<<K, IntV(3)>>>>, Eq(K, IntV(1))),
                Upd(U, <<<<K, IntV(9)>>, <<K, IntV(2)>>>>, Eq(K, IntV(1))), Upd(U, <<<<K, IntV(2)>>, <<K, IntV(9)>>>>, Eq(K, IntV(1)))}
          \cup {Del(U, Eq(K, IntV(1))), E("IntoInner", [x |-> 0]), E("Reopen", [x |-> 0])}
+         \* composite key (K, V): an UNCONDITIONAL update of the leading key column leaves the rows to be ordered by the rest
+         \cup {Cre(T, TabC), Ins(T, <<<<IntV(1), sa, Null>>>>), Ins(T, <<<<IntV(2), Null, Null>>>>), Upd(T, <<<<K, IntV(7)>>>>, True)}
     [] Cfg = "keys" ->          \* key shapes: key not first, composite with nullable string part
          {Cre(U, TabU), Cre(T, TabC), Drp(U), Drp(T)}
          \cup {Ins(U, <<<<v, IntV(k)>>>>) : k \in {1, 2}, v \in {Null, sa}}
@@ -162,6 +169,7 @@ Alphabet ==
          \cup {Ins(T, <<<<IntV(k), v, Null>>>>) : k \in {1, 2}, v \in {Null, sa, sE}}
          \cup {Ins(T, <<<<IntV(1), sb, IntV(5)>>, <<IntV(1), sa, IntV(10)>>>>)}
          \cup {Upd(T, <<<<V, v>>>>, True) : v \in {Null, sb}}
+         \cup {Upd(T, <<<<K, IntV(7)>>>>, True)}                  \* leading key column, no condition: order by the rest of the key
          \cup {Upd(U, <<<<K, IntV(1)>>>>, True), Upd(U, <<<<K, IntV(3)>>>>, Eq(K, IntV(1)))}
          \* a column assigned twice: the last assignment is stored and it is the one the key check must use
          \cup {Upd(U, <<<<K, IntV(9)>>, <<K, IntV(2)>>>>, Eq(K, IntV(1))), Upd(U, <<<<K, IntV(2)>>, <<K, IntV(9)>>>>, Eq(K, IntV(1)))}
